@@ -73,16 +73,19 @@ class Ctx:
     def travel(self, a, b):
         return self.m["dur"][a][b] if self.valid(a) and self.valid(b) else 0
 
-    def duration(self, s, prev=None):
-        """time spent at stop s when the vehicle comes from prev: own duration plus the duration of its duration
-        group unless prev is in the same group"""
-        d = 0 if (self.o["dis_durations"] or s >= self.n) else self.m["stops"][s]["duration"]
+    def duration(self, s, prev=None, v=None):
+        """time spent at stop s when vehicle v comes from prev: own duration plus the duration of its duration
+        group unless prev is in the same group, each scaled by the vehicle's multiplier and truncated"""
+        num, den = (1, 1)
+        if v is not None and not self.o.get("dis_multipliers"):
+            num, den = self.m["vehicles"][v].get("mult", (1, 1))
+        d = 0 if (self.o["dis_durations"] or s >= self.n) else (self.m["stops"][s]["duration"] * num) // den
         if not self.o.get("dis_dgroups"):
             gs = self.m.get("dgroups") or []
             gof = lambda x: next((k for k, (g, _) in enumerate(gs) if x in g), None)  # noqa: E731
             g = gof(s)
             if g is not None and gof(prev) != g:
-                d += gs[g][1]
+                d += (gs[g][1] * num) // den
         return d
 
     def windows(self, s):
@@ -106,7 +109,7 @@ class Ctx:
             arr = out[-1][4] + tr
             st = max(arr, windows_start(self.windows(b), arr))
             cum += tr
-            out.append((tr, cum, arr, st, st + self.duration(b, a)))
+            out.append((tr, cum, arr, st, st + self.duration(b, a, v)))
         return out
 
 
